@@ -28,11 +28,14 @@ def CUR(r):
 
 
 def NUM(r):
-    return r.choice([D('1'), D('-2.50'), D('0'), D('1234567.89'), D('-0.001'), D('42'), D('100.00')])
+    return r.choice([D('1'), D('-2.50'), D('0'), D('1234567.89'), D('-0.001'), D('42'), D('100.00'),
+                     # values whose str() is in exponent form, and one with more digits than the decimal context keeps
+                     D('1E+2'), D('-2.5E+3'), D('1E-7'), D('0E-8'), D('-0.00000012'), D('123456789012345678901234567890.123456789')])
 
 
 def POS(r):
-    return r.choice([D('1'), D('2.50'), D('0.01'), D('1234567.89'), D('0'), D('0.00')])
+    return r.choice([D('1'), D('2.50'), D('0.01'), D('1234567.89'), D('0'), D('0.00'), D('12E+1'), D('9.0E-11'), D('0E-7'),
+                     D('0.1234567890123456789012345678901')])
 
 
 def DATE(r):
